@@ -735,3 +735,12 @@ mod tests {
         standard_testcase_generator_test_suite(generator, "markdown")
     }
 }
+
+/// Verification hooks (compiled only with `--cfg scrut_verif`): forwarding wrappers that expose
+/// crate-private leaf functions to the external harness crates. No behaviour of its own.
+#[cfg(scrut_verif)]
+pub mod verif_hooks {
+    pub fn max_backtick_size(code_block: &str) -> usize {
+        super::max_backtick_size(code_block)
+    }
+}
